@@ -12,11 +12,21 @@ import re
 from vcheck import write_ndjson
 
 
-def validate_known(ctx, module, cfg, rows, weak, what, name="pairs", timeout=1800):
+def validate_known(ctx, module, cfg, rows, weak, what, name="pairs", timeout=1800, stack=None):
     """rows: recorded events (with reset lines), weak: {clause: (signature, text)}."""
     path = os.path.join(ctx.run, "val-%s.ndjson" % name)
     write_ndjson(path, rows)
-    res = ctx.validate(module, cfg, path, count_resets=False, timeout=timeout)
+    old = os.environ.get("JAVA_TOOL_OPTIONS")
+    if stack:   # ctx.validate has no stack parameter; deep recursive operators (BigDec powers) need a larger thread stack
+        os.environ["JAVA_TOOL_OPTIONS"] = ((old + " ") if old else "") + "-Xss" + stack
+    try:
+        res = ctx.validate(module, cfg, path, count_resets=False, timeout=timeout)
+    finally:
+        if stack:
+            if old is None:
+                os.environ.pop("JAVA_TOOL_OPTIONS", None)
+            else:
+                os.environ["JAVA_TOOL_OPTIONS"] = old
     ctx.cov["traces_validated_against_impl"] += sum(1 for r in rows if r.get("ev") != "reset")
     if res["accepted"]:
         return res
